@@ -370,6 +370,24 @@ def run_shard(spec, acc):
                         continue
                     p2 = (payload & ~(f.mask << f.off)) | (u << f.off)
                     judge_case(dbx, dec, d, f"{f.id}:{name}", p2, max(nb, (p2.bit_length() + 7) // 8), acc, texts)
+    # integer constants that the generated code of a PGN compares something with although the database gives no reason
+    # (none in the pinned tree): every field of that PGN's definitions is given that value once
+    from .. import harvest
+    for pgn_, did_, c_ in harvest.unexplained_constants(dbx):
+        for d in defs:
+            if d.pgn != pgn_ or not d.fixed_layout or (did_ and did_ != d.id and not did_.endswith(d.id)):
+                continue
+            nb_ = d.length if d.length is not None else (d.total_bits() + 7) // 8
+            rng_ = gen.rng_for(seed, ID, "unexplained", d.id, c_)
+            for f in d.fields:
+                if f.bits is None or f.off is None or f.match is not None:
+                    continue
+                for v in (c_, c_ - 1, c_ + 1):
+                    if 0 <= v <= f.mask:
+                        base_ = dbx.pack(d, gen.base_raws(d, rng_, dbx))
+                        p2 = (base_ & ~(f.mask << f.off)) | (v << f.off)
+                        judge_case(dbx, dec, d, f"{f.id}:constant-from-the-generated-code", p2, nb_, acc)
+                        acc.count("unexplained_generated_constants_tried")
     interleaved_siblings(dbx, dec, defs, f"{seed}-post", acc, quick)
 
 
